@@ -104,6 +104,16 @@ def gen_text_cases(rng, tier):
     for text, lex in stmts[:nbyte]:
         for k in range(len(text)):
             cases.append(("trunc-byte", text[:k]))
+    # statements longer than the scanner's 1024-byte read block, a token straddling a block boundary
+    for text, lex in stmts[:: max(1, len(stmts) // (60 if tier == "quick" else 400))]:
+        cases.append(("block-boundary", sf.pad_to_buffer_boundary(rng, text)))
+    # a long literal of multi-byte characters where another token is required (error messages quote the token)
+    for n in ([14, 20, 30, 36, 41, 60] if tier == "quick" else list(range(8, 70, 3))):
+        for ch in ("\u4e2d", "\u00e9", "\U0001F600"):
+            lit = "'" + ch * n + "'"
+            for pat in ("select * from %s", "select a from t where %s %s", "insert into %s values (1)", "update t set %s = 1",
+                        "select a from t order by %s", "create table t (a %s)", "use %s", "select a from t limit %s"):
+                cases.append(("long-multibyte-literal", (pat % ((lit,) * pat.count("%s"))).encode("utf-8").decode("latin-1")))
 
     mal = []
     mal += ["'", '"', "''", '""', '"""', "'''", "'abc", '"abc', "select 'abc", 'select "abc', "select 'a\\'",
